@@ -53,32 +53,47 @@ theorem syncRun_eq (p : Params) (s : SState) :
 structure Sub (s s' : SState) : Prop where
   prob : ∀ n, n ∈ s'.prob → n ∈ s.prob
   wo : ∀ n, n ∈ s'.wo → n ∈ s.wo
+  /-- no info is made dirty -/
+  dirty : ∀ j, (getInfo s' j).dirty = true → (getInfo s j).dirty = true
 
-theorem Sub.refl (s : SState) : Sub s s := ⟨fun _ h => h, fun _ h => h⟩
+theorem Sub.refl (s : SState) : Sub s s := ⟨fun _ h => h, fun _ h => h, fun _ h => h⟩
 
 theorem Sub.trans {a b c : SState} (h1 : Sub a b) (h2 : Sub b c) : Sub a c :=
-  ⟨fun n h => h1.prob n (h2.prob n h), fun n h => h1.wo n (h2.wo n h)⟩
+  ⟨fun n h => h1.prob n (h2.prob n h), fun n h => h1.wo n (h2.wo n h),
+   fun j h => h1.dirty j (h2.dirty j h)⟩
 
-theorem sub_of_eq {s s' : SState} (hp : s'.prob = s.prob) (hw : s'.wo = s.wo) : Sub s s' :=
-  ⟨fun n h => by rw [hp] at h; exact h, fun n h => by rw [hw] at h; exact h⟩
+theorem sub_of_eq {s s' : SState} (hp : s'.prob = s.prob) (hw : s'.wo = s.wo)
+    (hi : s'.infos = s.infos) : Sub s s' :=
+  ⟨fun n h => by rw [hp] at h; exact h, fun n h => by rw [hw] at h; exact h,
+   fun j h => by rw [getInfo_congr hi] at h; exact h⟩
 
 theorem sub_fail (s : SState) (f : Fault) : Sub s (s.fail f) := by
   unfold SState.fail; split
   · exact Sub.refl s
-  · exact sub_of_eq rfl rfl
+  · exact sub_of_eq rfl rfl rfl
 
-theorem sub_withInfo (s : SState) (i : Nat) (f : Info → Info) : Sub s (withInfo s i f) :=
-  sub_of_eq rfl rfl
+/-- An update of one info that does not set the dirty flag. -/
+theorem sub_withInfo (s : SState) (i : Nat) (f : Info → Info)
+    (hf : ∀ x, (f x).dirty = true → x.dirty = true := by
+      intro x h; first | exact h | cases h) : Sub s (withInfo s i f) := by
+  refine ⟨fun _ h => h, fun _ h => h, ?_⟩
+  intro j h
+  rw [getInfo_withInfo] at h
+  by_cases e : i = j
+  · rw [if_pos e] at h; rw [← e]; exact hf _ h
+  · rw [if_neg e] at h; exact h
 
-theorem sub_addCounters (s : SState) (n w : Nat) : Sub s (addCounters s n w) := sub_of_eq rfl rfl
+theorem sub_addCounters (s : SState) (n w : Nat) : Sub s (addCounters s n w) :=
+  sub_of_eq rfl rfl rfl
 
 theorem sub_erase (s : SState) (k : Nat) : Sub s { s with map := AL.erase s.map k } :=
-  sub_of_eq rfl rfl
+  sub_of_eq rfl rfl rfl
 
-theorem sub_set_readQ (s : SState) (q : List ROp) : Sub s { s with readQ := q } := sub_of_eq rfl rfl
+theorem sub_set_readQ (s : SState) (q : List ROp) : Sub s { s with readQ := q } :=
+  sub_of_eq rfl rfl rfl
 
 theorem sub_set_writeQ (s : SState) (q : List WOp) : Sub s { s with writeQ := q } :=
-  sub_of_eq rfl rfl
+  sub_of_eq rfl rfl rfl
 
 theorem mem_of_mem_eraseAo {l : List AoNode} {id : Nat} {m : AoNode} (h : m ∈ eraseAo l id) :
     m ∈ l := by
@@ -110,7 +125,7 @@ theorem moveNodeToBackAo_sub (s : SState) (id : Nat) : Sub s (moveNodeToBackAo s
   unfold moveNodeToBackAo
   split
   · rename_i n hf
-    refine ⟨fun m hm => ?_, fun _ h => h⟩
+    refine ⟨fun m hm => ?_, fun _ h => h, fun _ h => h⟩
     rcases List.mem_append.mp hm with hm | hm
     · exact mem_of_mem_eraseAo hm
     · simp at hm; rw [hm]; exact (findAo_some hf).1
@@ -120,7 +135,7 @@ theorem moveNodeToBackWo_sub (s : SState) (id : Nat) : Sub s (moveNodeToBackWo s
   unfold moveNodeToBackWo
   split
   · rename_i n hf
-    refine ⟨fun _ h => h, fun m hm => ?_⟩
+    refine ⟨fun _ h => h, fun m hm => ?_, fun _ h => h⟩
     rcases List.mem_append.mp hm with hm | hm
     · exact mem_of_mem_eraseWo hm
     · simp at hm; rw [hm]; exact (findWo_some hf).1
@@ -141,7 +156,8 @@ theorem unlinkAo_sub (s : SState) (i : Nat) : Sub s (unlinkAo s i) := by
   · exact Sub.refl s
   · dsimp only
     split
-    · exact ⟨fun m hm => mem_of_mem_eraseAo hm, fun _ h => h⟩
+    · exact ⟨fun m hm => mem_of_mem_eraseAo hm, fun _ h => h,
+        fun j h => (sub_withInfo s i _).dirty j h⟩
     · exact (sub_withInfo s _ _).trans (sub_fail _ _)
 
 theorem unlinkWo_sub (s : SState) (i : Nat) : Sub s (unlinkWo s i) := by
@@ -149,15 +165,16 @@ theorem unlinkWo_sub (s : SState) (i : Nat) : Sub s (unlinkWo s i) := by
   · exact Sub.refl s
   · dsimp only
     split
-    · exact ⟨fun _ h => h, fun m hm => mem_of_mem_eraseWo hm⟩
+    · exact ⟨fun _ h => h, fun m hm => mem_of_mem_eraseWo hm,
+        fun j h => (sub_withInfo s i _).dirty j h⟩
     · exact (sub_withInfo s _ _).trans (sub_fail _ _)
 
 theorem subCounters_sub (s : SState) (n w : Nat) : Sub s (subCounters s n w) := by
   unfold subCounters
   dsimp only
   split
-  · exact (sub_fail s _).trans (sub_of_eq rfl rfl)
-  · exact sub_of_eq rfl rfl
+  · exact (sub_fail s _).trans (sub_of_eq rfl rfl rfl)
+  · exact sub_of_eq rfl rfl rfl
 
 theorem handleRemove_sub (s : SState) (ve : VE) : Sub s (handleRemove s ve) := by
   unfold handleRemove
@@ -194,7 +211,7 @@ theorem removeCandidate_sub (p : Params) (s : SState) (key : Nat) (ve : VE) :
   unfold removeCandidate
   split
   · split
-    · exact sub_of_eq rfl rfl
+    · exact sub_of_eq rfl rfl rfl
     · exact Sub.refl s
   · exact Sub.refl s
 
@@ -298,14 +315,14 @@ theorem evictLruLoop_sub (p : Params) (n : Nat) :
 theorem enableSketch_sub (p : Params) (s : SState) : Sub s (enableSketch p s) := by
   unfold enableSketch
   split
-  · exact sub_of_eq rfl rfl
+  · exact sub_of_eq rfl rfl rfl
   · exact Sub.refl s
 
 theorem sketchIncrement_sub (p : Params) (s : SState) (h : UInt64) :
     Sub s (sketchIncrement p s h) := by
   unfold sketchIncrement
   split
-  · exact sub_of_eq rfl rfl
+  · exact sub_of_eq rfl rfl rfl
   · exact sub_fail _ _
 
 theorem applyRead_sub (p : Params) (s : SState) (op : ROp) : Sub s (applyRead p s op) := by
@@ -320,9 +337,9 @@ theorem applyRead_sub (p : Params) (s : SState) (op : ROp) : Sub s (applyRead p 
         else if (getInfo s1 ve.info).la < ts then withInfo s1 ve.info (fun i => { i with la := ts })
         else s1) := by
       split
-      · exact sub_of_eq rfl rfl
+      · exact sub_withInfo _ _ _
       · split
-        · exact sub_of_eq rfl rfl
+        · exact sub_withInfo _ _ _
         · exact Sub.refl _
     generalize (if p.q.d6 = true then withInfo s1 ve.info (fun i => { i with la := ts })
         else if (getInfo s1 ve.info).la < ts then withInfo s1 ve.info (fun i => { i with la := ts })
@@ -348,18 +365,21 @@ theorem applyReads_sub (p : Params) (n : Nat) : ∀ (s : SState), Sub s (applyRe
 structure SubC (key : Nat) (hash : UInt64) (info : Nat) (s s' : SState) : Prop where
   prob : ∀ n, n ∈ s'.prob → n ∈ s.prob ∨ (n.key = key ∧ n.hash = hash ∧ n.info = info)
   wo : ∀ n, n ∈ s'.wo → n ∈ s.wo ∨ n.info = info
+  dirty : ∀ j, (getInfo s' j).dirty = true → (getInfo s j).dirty = true
 
 theorem Sub.toC {s s' : SState} (h : Sub s s') (key : Nat) (hash : UInt64) (info : Nat) :
     SubC key hash info s s' :=
-  ⟨fun n hn => Or.inl (h.prob n hn), fun n hn => Or.inl (h.wo n hn)⟩
+  ⟨fun n hn => Or.inl (h.prob n hn), fun n hn => Or.inl (h.wo n hn), h.dirty⟩
 
 theorem SubC.trans_sub {key : Nat} {hash : UInt64} {info : Nat} {a b c : SState}
     (h1 : SubC key hash info a b) (h2 : Sub b c) : SubC key hash info a c :=
-  ⟨fun n hn => h1.prob n (h2.prob n hn), fun n hn => h1.wo n (h2.wo n hn)⟩
+  ⟨fun n hn => h1.prob n (h2.prob n hn), fun n hn => h1.wo n (h2.wo n hn),
+   fun j h => h1.dirty j (h2.dirty j h)⟩
 
 theorem Sub.trans_c {key : Nat} {hash : UInt64} {info : Nat} {a b c : SState}
     (h1 : Sub a b) (h2 : SubC key hash info b c) : SubC key hash info a c :=
-  ⟨fun n hn => (h2.prob n hn).imp (h1.prob n) id, fun n hn => (h2.wo n hn).imp (h1.wo n) id⟩
+  ⟨fun n hn => (h2.prob n hn).imp (h1.prob n) id, fun n hn => (h2.wo n hn).imp (h1.wo n) id,
+   fun j h => h1.dirty j (h2.dirty j h)⟩
 
 theorem handleAdmit_subc (p : Params) (s : SState) (key : Nat) (hash : UInt64) (ve : VE)
     (w : Nat) : SubC key hash ve.info s (handleAdmit p s key hash ve w) := by
@@ -367,12 +387,14 @@ theorem handleAdmit_subc (p : Params) (s : SState) (key : Nat) (hash : UInt64) (
   dsimp only
   have h2 : Sub s (if p.q.d8 = true then addCounters s 1 w
       else withInfo (addCounters s 1 w) ve.info (fun i => { i with weight := w })) := by
-    split <;> exact sub_of_eq rfl rfl
+    split
+    · exact sub_addCounters _ _ _
+    · exact (sub_addCounters _ _ _).trans (sub_withInfo _ _ _)
   generalize (if p.q.d8 = true then addCounters s 1 w
       else withInfo (addCounters s 1 w) ve.info (fun i => { i with weight := w })) = s2 at h2 ⊢
   refine Sub.trans_c h2 ?_
   split
-  · refine ⟨fun n hn => ?_, fun n hn => ?_⟩
+  · refine ⟨fun n hn => ?_, fun n hn => ?_, fun j h => ?_⟩
     · have hn' : n ∈ s2.prob ++ [_] := hn
       rcases List.mem_append.mp hn' with h | h
       · exact Or.inl h
@@ -381,11 +403,16 @@ theorem handleAdmit_subc (p : Params) (s : SState) (key : Nat) (hash : UInt64) (
       rcases List.mem_append.mp hn' with h | h
       · exact Or.inl h
       · simp at h; rw [h]; exact Or.inr rfl
-  · refine ⟨fun n hn => ?_, fun n hn => Or.inl hn⟩
-    have hn' : n ∈ s2.prob ++ [_] := hn
-    rcases List.mem_append.mp hn' with h | h
-    · exact Or.inl h
-    · simp at h; rw [h]; exact Or.inr ⟨rfl, rfl, rfl⟩
+    · have h6 := (sub_withInfo _ ve.info _).dirty j h
+      have h5 := (sub_withInfo _ ve.info _).dirty j h6
+      exact (sub_withInfo _ ve.info _).dirty j h5
+  · refine ⟨fun n hn => ?_, fun n hn => Or.inl hn, fun j h => ?_⟩
+    · have hn' : n ∈ s2.prob ++ [_] := hn
+      rcases List.mem_append.mp hn' with h | h
+      · exact Or.inl h
+      · simp at h; rw [h]; exact Or.inr ⟨rfl, rfl, rfl⟩
+    · have h6 := (sub_withInfo _ ve.info _).dirty j h
+      exact (sub_withInfo _ ve.info _).dirty j h6
 
 theorem admitOrReject_subc (p : Params) (s : SState) (key : Nat) (hash : UInt64) (ve : VE)
     (newW : Nat) : SubC key hash ve.info s (admitOrReject p s key hash ve newW) := by
@@ -401,7 +428,8 @@ theorem handleUpsert_subc (p : Params) (s : SState) (key : Nat) (hash : UInt64) 
   unfold handleUpsert
   dsimp only
   generalize currentWeight p s key ve newW = newW
-  have h0 : Sub s (withInfo s ve.info (fun i => { i with dirty := false })) := sub_of_eq rfl rfl
+  have h0 : Sub s (withInfo s ve.info (fun i => { i with dirty := false })) :=
+    sub_withInfo _ _ _
   refine h0.trans_c ?_
   generalize withInfo s ve.info (fun i => { i with dirty := false }) = s1
   by_cases h1 : (getInfo s1 ve.info).admitted = true
@@ -1381,7 +1409,7 @@ theorem admitOrReject_cand {p : Params} (hd7 : p.q.d7 = false) {s : SState} {k :
       dsimp only
       rw [hd7, Bool.false_or, beq_self_eq_true, if_pos rfl]
     rw [this]
-    exact ⟨rfl, rfl, rfl, sub_of_eq rfl rfl⟩
+    exact ⟨rfl, rfl, rfl, sub_of_eq rfl rfl rfl⟩
 
 /-- `handle_upsert` for the queued insert of a key that is new, not admitted yet, not
 oversized and finds no room, in a state all of whose nodes are current. -/
